@@ -291,14 +291,17 @@ class HassebUsb(HidDevice):
             ans = self.bus.transmit(self.world.now, 16, value, "own")
             if is_query(16, value):
                 d = self.pick("hasseb.answer_delay", [0.008, 0.013])
+                # a report is the status byte and, where there is something to carry, a data byte; what follows is padding
+                shape = self.pick("hasseb.report_shape", ["two", "two", "padded", "status-only"])
+                pad = bytes(6) if shape == "padded" else b""
                 if ans is None:
-                    self.report(d, bytes([1, 0]))
+                    self.report(d, bytes([1]) if shape == "status-only" else bytes([1, 0]) + pad)
                 elif ans[0] == "ok":
-                    self.report(d, bytes([2, ans[1]]))
+                    self.report(d, bytes([2, ans[1]]) + pad)
                 else:
-                    self.report(d, bytes([3, ans[1]]))
+                    self.report(d, bytes([3, ans[1]]) + pad)
             elif self.idle_reports and self.pick("hasseb.idle", [0, 1]):
-                self.report(0.02, bytes([0, 0]))
+                self.report(0.02, bytes([0]) if self.pick("hasseb.idle_shape", [0, 1]) else bytes([0, 0]))
         self.world.at(t0, fire)
 
 
